@@ -22,6 +22,7 @@ ID = 'C08'
 KINDS = [cg.BASIC, cg.COMPOUND, cg.ORTH, cg.FINAL]
 LEVELS = {
     'quick': [
+        {'name': 'L0-same-text', 'harness': 'same_text', 'budget_s': 20},
         {'name': 'L1-N3-M1-K2', 'N': 3, 'M': 1, 'K': 2, 'cstates': 'all', 'budget_s': 60},
         {'name': 'L2-N3-M2-K1-bco', 'N': 3, 'M': 2, 'K': 1, 'cstates': 'few', 'kinds': 'bco', 'evented': 1, 'budget_s': 90},
         {'name': 'L3-N4-M1-K1-bco', 'N': 4, 'M': 1, 'K': 1, 'cstates': 'some', 'kinds': 'bco', 'budget_s': 90},
@@ -34,7 +35,8 @@ LEVELS = {
     ],
 }
 WITNESSES = ['precondition_error', 'postcondition_error', 'invariant_error', 'transition_contract_error',
-             'invariant_on_empty_step', 'old_seen_by_state', 'old_seen_by_transition', 'all_conditions_hold']
+             'invariant_on_empty_step', 'old_seen_by_state', 'old_seen_by_transition', 'all_conditions_hold',
+             'same_text_condition_fails', 'same_text_all_hold']
 STUBS = ['conditions are the code strings "C(kind, id, j, v, old)"; C logs and returns a fresh symbolic Boolean '
          'per occurrence', 'every entry/exit/action fragment also runs "v = v + 1" on a symbolic integer v and "L.append(1)" on a list (in-place mutation: __old__ must be a snapshot)']
 ASSUMPTIONS = ['well-formed charts (DESIGN §2) over basic/compound/orthogonal/final states', 'events from {a, none}',
@@ -47,11 +49,16 @@ NC = 2   # conditions of each kind on every state and transition
 
 
 def shards(level):
+    if level.get('harness') == 'same_text':
+        return [{'order': o} for o in range(2)]
     kinds = KINDS[:3] if level.get('kinds') == 'bco' else KINDS
     return cg.split_shards(cg.skeletons(level['N'], kinds), level['M'], nevents=1, evented_only=bool(level.get('evented')))
 
 
 def expand(job, level):
+    if 'order' in job:
+        yield job
+        return
     if 'chart' in job:
         yield job['chart']
         return
@@ -111,7 +118,83 @@ def build(g, chart, level):
     return sc, trs, cm
 
 
+def same_text(g, job, level):
+    """a contract condition whose text is also used as entry/exit/action code elsewhere in the chart: whether the
+    condition holds depends on its value only, whatever was executed (or evaluated) under the same text before"""
+    from sismic.exceptions import PreconditionError, PostconditionError, InvariantError
+    from sismic.model import Statechart, CompoundState, BasicState, Transition
+    from sismic.interpreter import Interpreter
+    sc = Statechart('same_text')
+    sc.add_state(CompoundState('r', initial='A'), None)
+    a = BasicState('A', on_entry='T(1)', on_exit='T(2)')
+    b = BasicState('B', on_entry='T(4)')
+    sc.add_state(a, 'r')
+    sc.add_state(b, 'r')
+    tr = Transition('A', 'B', event='go', action='T(3)')
+    sc.add_transition(tr)
+    tb = Transition('B', 'A', event='back', action='T(1)')
+    sc.add_transition(tb)
+    if job['order'] == 0:      # code runs before the condition of the same text is first evaluated
+        a.invariants.append('T(1)')
+        a.postconditions.append('T(2)')
+        tr.postconditions.append('T(3)')
+        b.preconditions.append('T(3)')
+        # expected occurrences: (text, is condition, error class, object)
+        plan = [[(1, False, None, None), (1, True, InvariantError, a)],
+                [(2, False, None, None), (2, True, PostconditionError, a), (3, False, None, None),
+                 (3, True, PostconditionError, tr), (3, True, PreconditionError, b), (4, False, None, None)]]
+    else:                      # the condition is evaluated before code of the same text runs
+        a.preconditions.append('T(1)')
+        tr.preconditions.append('T(3)')
+        b.invariants.append('T(1)')
+        plan = [[(1, True, PreconditionError, a), (1, False, None, None)],
+                [(2, False, None, None), (3, True, PreconditionError, tr), (3, False, None, None), (4, False, None, None),
+                 (1, True, InvariantError, b)],
+                [(1, False, None, None), (1, True, PreconditionError, a), (1, False, None, None)]]
+    cur = {'plan': [], 'pos': 0, 'fail': None, 'extra': 0}
+
+    def T(k):
+        pos = cur['pos']
+        cur['pos'] += 1
+        if pos >= len(cur['plan']) or cur['plan'][pos][0] != k:
+            cur['extra'] += 1
+            return True
+        if not cur['plan'][pos][1]:
+            return True          # code position: the value is discarded
+        bit = g.bool('t%d_%d' % (cur['step'], pos))
+        if not bit and cur['fail'] is None:
+            cur['fail'] = pos
+            return False
+        return True
+    it = Interpreter(sc, initial_context={'T': T})
+    events = [None, 'go', 'back']
+    for step, pl in enumerate(plan):
+        cur.update(plan=pl, pos=0, fail=None, extra=0, step=step)
+        if events[step]:
+            it.queue(events[step])
+        try:
+            it.execute_once()
+            err = None
+        except Exception as e:
+            err = e
+        info = {'order': job['order'], 'step': step, 'calls': cur['pos'], 'planned': len(pl), 'error': type(err).__name__,
+                'failing_position': cur['fail']}
+        if cur['fail'] is None:
+            g.prove(err is None, 'condition_that_holds_raises_nothing', info)
+            g.prove(cur['pos'] == len(pl) and cur['extra'] == 0, 'code_and_conditions_run_as_planned', info)
+        else:
+            _, _, klass, obj = pl[cur['fail']]
+            g.prove(type(err) is klass and err.obj is obj, 'failing_condition_raises_its_error', info)
+            g.prove(cur['pos'] == cur['fail'] + 1, 'nothing_runs_after_the_failure', info)
+            g.witness('same_text_condition_fails')
+            return
+    g.witness('same_text_all_hold')
+    g.sample({'order': job['order']})
+
+
 def harness(g, chart, level, canary=False):
+    if level.get('harness') == 'same_text':
+        return same_text(g, chart, level)
     from sismic.exceptions import (PreconditionError, PostconditionError, InvariantError, ContractError,
                                    NonDeterminismError, ConflictingTransitionsError)
     klass = {'pre': PreconditionError, 'post': PostconditionError, 'inv': InvariantError}
